@@ -52,6 +52,13 @@ func runReplay(repo, file string) replayResult {
 	fakes, err := os.ReadFile(filepath.Join(verifRoot(), "replay", "fakes.go.txt"))
 	if err == nil {
 		fp := filepath.Join(tmp, "zz_verif_fakes_test.go")
+		if i := bytes.Index(fakes, []byte("// ---- storage fakes")); i >= 0 {
+			if strings.HasPrefix(pkgDir, "backend") {
+				fakes = fakes[:i]
+			} else {
+				fakes = bytes.Replace(fakes, []byte("import (\n"), []byte("import (\n\t\"github.com/diskfs/go-diskfs/backend\"\n"), 1)
+			}
+		}
 		_ = os.WriteFile(fp, bytes.Replace(fakes, []byte("package PKG"), []byte("package "+pkgName), 1), 0o644)
 		ov[filepath.Join(abs, "zz_verif_fakes_test.go")] = fp
 	}
